@@ -750,7 +750,9 @@ func (f *ftr) stmts(ss []ast.Stmt, k string, ind string) string {
 }
 
 // emitFuncs returns the Lean text of namespace Sipsp.Gen.F and the list of translated / untranslated functions.
-func emitFuncs(files []*ast.File, info *types.Info, pkg *types.Package) (string, []string, map[string]string) {
+// emitFuncs translates the functions named in `wanted`; `prefix` is put in front of the Lean names (dependencies) and
+// `listName` names the two summary lists.
+func emitFuncs(files []*ast.File, info *types.Info, pkg *types.Package, wanted []string, prefix, listName string) (string, []string, map[string]string) {
 	decls := map[string]*ast.FuncDecl{}
 	for _, file := range files {
 		for _, d := range file.Decls {
@@ -775,8 +777,7 @@ func emitFuncs(files []*ast.File, info *types.Info, pkg *types.Package) (string,
 	var done []string
 	doneMon := map[string]bool{} // translated so far: name -> its result is an Option
 	failed := map[string]string{}
-	wanted := wantedFuncs
-	if v := os.Getenv("EXTRACT_FUNCS"); v != "" { // for testing the translator on a scratch package
+	if v := os.Getenv("EXTRACT_FUNCS"); v != "" && prefix == "" { // for testing the translator on a scratch package
 		wanted = strings.Split(v, ",")
 	}
 	for _, name := range wanted {
@@ -796,7 +797,7 @@ func emitFuncs(files []*ast.File, info *types.Info, pkg *types.Package) (string,
 				}
 			}()
 			f := &ftr{info: info, pkg: pkg, fields: map[string]bool{}, names: map[string]bool{}, done: doneMon,
-				fname: strings.ReplaceAll(name, ".", "_"),
+				fname: prefix + strings.ReplaceAll(name, ".", "_"),
 				logs:  map[string]bool{"BUG": true, "DBG": true, "ERR": true, "WARN": true}}
 			var params []string
 			if fd.Recv != nil {
@@ -904,7 +905,7 @@ func emitFuncs(files []*ast.File, info *types.Info, pkg *types.Package) (string,
 			if f.strct != nil {
 				params = append(append([]string{}, f.fieldL...), params...)
 			}
-			lname := strings.ReplaceAll(name, ".", "_")
+			lname := prefix + strings.ReplaceAll(name, ".", "_")
 			rt := strings.Join(rts, " × ")
 			if f.mon {
 				rt = "Option (" + rt + ")"
@@ -934,14 +935,14 @@ func emitFuncs(files []*ast.File, info *types.Info, pkg *types.Package) (string,
 		fk = append(fk, k)
 	}
 	sort.Strings(fk)
-	sb.WriteString("def translated : List String := [")
+	sb.WriteString("def " + listName + " : List String := [")
 	for i, n := range done {
 		if i > 0 {
 			sb.WriteString(", ")
 		}
 		sb.WriteString(fmt.Sprintf("%q", n))
 	}
-	sb.WriteString("]\n\ndef untranslated : List (String × String) := [")
+	sb.WriteString("]\n\ndef un" + listName + " : List (String × String) := [")
 	for i, n := range fk {
 		if i > 0 {
 			sb.WriteString(", ")
